@@ -20,7 +20,7 @@ from __future__ import annotations
 import contextlib
 
 COMPUTER, UOD = "PC", "UOD"
-ENGINE_ID = "PC_UOD"            # == Aggregator.create_engine_id(register msg) for the names above (asserted in World)
+ENGINE_ID = "PC_UOD"            # default; World.engine_id is taken from Aggregator.create_engine_id(register msg)
 TAG_NAMES = ["A", "B", "C"]     # A and B are readings (have plot-log entries); C is a tag that is not plotted
 
 ASSUMPTIONS_DB = [
@@ -295,6 +295,7 @@ class World:
         self.sym = sym
         self.db = FakeDb()
         self.rows = {}          # name -> row class standing in for the ORM class
+        self.engine_id = ENGINE_ID
         self.agg = None
         self.handlers = None
         self.dispatcher = None
@@ -329,8 +330,8 @@ class World:
         reply = run_coro(self.handlers.handle_RegisterEngineMsg(self.register_msg()))
         if not reply.success:
             return reply
-        self.dispatcher.connected.add(ENGINE_ID)
-        run_coro(self.handlers.handle_EngineConnected(ENGINE_ID))
+        self.dispatcher.connected.add(self.engine_id)
+        run_coro(self.handlers.handle_EngineConnected(self.engine_id))
         if uod_info:
             self.uod_info(interval)
         return reply
@@ -342,31 +343,31 @@ class World:
                                         commands=[], command_options=None) for n in TAG_NAMES[:2]]
             uod_def = Mdl.UodDefinition(commands=[], system_commands=[], tags=[])
             plot_conf = Mdl.PlotConfiguration.empty()
-        self.agg.from_engine.uod_info_changed(ENGINE_ID, readings, [], uod_def, plot_conf, "hw", set(),
+        self.agg.from_engine.uod_info_changed(self.engine_id, readings, [], uod_def, plot_conf, "hw", set(),
                                               5.0 if interval is None else interval)
 
     def disconnect(self):
-        self.dispatcher.connected.discard(ENGINE_ID)
-        run_coro(self.handlers.handle_EngineDisconnected(ENGINE_ID))
+        self.dispatcher.connected.discard(self.engine_id)
+        run_coro(self.handlers.handle_EngineDisconnected(self.engine_id))
 
     def run_started(self, run_id, started_tick=1_700_000_000.0):
         import openpectus.protocol.engine_messages as EM
         with self.sym.concrete():
-            msg = EM.RunStartedMsg(engine_id=ENGINE_ID, run_id=run_id, started_tick=started_tick)
+            msg = EM.RunStartedMsg(engine_id=self.engine_id, run_id=run_id, started_tick=started_tick)
         return run_coro(self.handlers.handle_RunStartedMsg(msg))
 
     def run_stopped(self, run_id):
         import openpectus.protocol.engine_messages as EM
         import openpectus.aggregator.models as Mdl
         with self.sym.concrete():
-            msg = EM.RunStoppedMsg(engine_id=ENGINE_ID, run_id=run_id, runlog=Mdl.RunLog.empty(), method_state=Mdl.MethodState.empty(),
+            msg = EM.RunStoppedMsg(engine_id=self.engine_id, run_id=run_id, runlog=Mdl.RunLog.empty(), method_state=Mdl.MethodState.empty(),
                                    archive=None, archive_filename=None)
         return run_coro(self.handlers.handle_RunStoppedMsg(msg))
 
     def tags(self, run_id, tag_values):
         """TagsUpdatedMsg; built with model_construct because the TagValues carry solver variables."""
         import openpectus.protocol.engine_messages as EM
-        msg = EM.TagsUpdatedMsg.model_construct(engine_id=ENGINE_ID, sequence_number=1, tags=tag_values, run_id=run_id)
+        msg = EM.TagsUpdatedMsg.model_construct(engine_id=self.engine_id, sequence_number=1, tags=tag_values, run_id=run_id)
         return run_coro(self.handlers.handle_TagsUpdatedMsg(msg))
 
     def tag_value(self, name, tick_time, value):
@@ -376,7 +377,7 @@ class World:
 
     # -- observation ---------------------------------------------------------------------------------
     def engine_data(self):
-        return self.agg._engine_data_map.get(ENGINE_ID)
+        return self.agg._engine_data_map.get(self.engine_id)
 
     def plot_logs(self, run_id):
         return [p for p in self.db.of(self.rows["PlotLog"]) if p.run_id == run_id]
@@ -386,7 +387,7 @@ class World:
 
     def recent_engine(self):
         for r in self.db.of(self.rows["RecentEngine"]):
-            if r.engine_id == ENGINE_ID:
+            if r.engine_id == self.engine_id:
                 return r
         return None
 
@@ -429,7 +430,7 @@ def aggregator_world(sym):
         A.time = Clock()
         H.asyncio = StubAsyncio
         world.start_aggregator()
-        assert world.agg.create_engine_id(world.register_msg()) == ENGINE_ID
+        world.engine_id = world.agg.create_engine_id(world.register_msg())
     try:
         yield world
     finally:
